@@ -69,18 +69,24 @@ def touched_functions(patch, root):
     return out
 
 
-def props_for(patch, root):
+def props_for(patch, root, cap=None):
+    """the properties whose units have a touched function under contract (BENIGN_WIDE=1: also those that merely execute it
+    from source); with a cap, the cheapest ones are kept (the caller adds the patch's own property)"""
     fns = touched_functions(patch, root)
     out = []
     for f in sorted(glob.glob("/verif/evidence/C*.json")):
         ev = json.load(open(f))
         cov = ev.get("coverage", {})
-        names = set(cov.get("functions_executed_from_source", [])) | set(cov.get("functions_under_contract", [])) | set(
-            cov.get("functions_used_by_contract_or_model", []))
+        names = set(cov.get("functions_under_contract", []))
+        if os.environ.get("BENIGN_WIDE"):
+            names |= set(cov.get("functions_executed_from_source", [])) | set(cov.get("functions_used_by_contract_or_model", []))
         if any((fn in names) or (fn.endswith(":") and any(n.startswith(fn) for n in names)) or
                any(n.startswith(fn + ".") for n in names) for fn in fns):
-            out.append(os.path.basename(f)[:-5])
-    return out, sorted(fns)
+            out.append((ev.get("wall_s", 0), os.path.basename(f)[:-5]))
+    out.sort()
+    if cap:
+        out = out[:cap]
+    return sorted(p for _w, p in out), sorted(fns)
 
 
 def main(argv):
@@ -100,7 +106,7 @@ def main(argv):
         results = {}
         touched = []
         if applied and not props:
-            props, touched = props_for(d + "/patch.diff", root)
+            props, touched = props_for(d + "/patch.diff", root, cap=int(os.environ.get("BENIGN_CAP", "5")))
             own = (json.load(open(d + "/meta.json")).get("property") if os.path.exists(d + "/meta.json") else None)
             if own and own not in props:
                 props.append(own)
